@@ -72,3 +72,22 @@ def jal_numeric():
                   {"self": S(), "line_parsed": P(), "address_count": ac, "line_number": 1, "line": "l"}, ("imm_val",))
     require("the slice holds the assignment of the operand and its adjustment", r["__n_statements__"] >= 1)
     check("pc_relative_displacement_of_an_absolute_target", r["imm_val"] == v - ac)
+
+
+@unit("C04/InstructionMemory.write_instructions/leaves-exactly-the-given-sequence")
+def write_instructions_replaces():
+    """the assembler's last step: whatever the instruction memory held before (an earlier, longer program), afterwards it
+    holds exactly the given instructions at consecutive addresses from the first one -- nothing else"""
+    from architecture_simulator.uarch.memory.instruction_memory import InstructionMemory
+    from architecture_simulator.uarch.riscv.riscv_architectural_state import RiscvArchitecturalState
+    from architecture_simulator.isa.riscv.rv32i_instructions import ADD, ADDI, SW
+    for im in (InstructionMemory(), RiscvArchitecturalState().instruction_memory):
+        old = [ADDI(1, 1, 1), ADDI(2, 2, 2), ADDI(3, 3, 3), ADDI(4, 4, 4)]
+        im.write_instructions(old)
+        check("first_program_stored", sorted(im.instructions.keys()) == [0, 4, 8, 12])
+        new = [ADD(5, 6, 7), SW(1, 2, 4)]
+        im.write_instructions(new)
+        check("exactly_the_new_program", sorted(im.instructions.keys()) == [0, 4] and im.instructions[0] is new[0] and im.instructions[4] is new[1])
+        check("no_instruction_behind_the_program", not im.instruction_at_address(8) and not im.instruction_at_address(12))
+        im.write_instructions([])
+        check("an_empty_program_leaves_nothing", len(im.instructions) == 0 and not im.instruction_at_address(0))
